@@ -1,5 +1,5 @@
 /-
-  Lemmas/World.lean — invariants of every class object in every world reachable by class
+  Lemmas/DefineWorld.lean — invariants of every class object in every world reachable by class
   statements: `_field_by_name` is the MRO merge of the own fields, the MRO is duplicate-free and
   closed, and every ancestor's MRO is a subsequence (C3).  Proved by induction over histories.
 -/
